@@ -15,8 +15,8 @@ import (
 // the unexported connFn), plus read-only views of the sentinel client's targets and
 // wrappers for the retry policy functions.
 
-// VerifNode is the behaviour of one fake connection (one per connFn call).
-type VerifNode interface {
+// VerifRoutingNode is the behaviour of one fake connection (one per connFn call).
+type VerifRoutingNode interface {
 	Dial() error
 	Do(ctx context.Context, cmd Completed) RedisResult
 	DoMulti(ctx context.Context, multi ...Completed) []RedisResult
@@ -30,109 +30,109 @@ type VerifNode interface {
 	Version() int
 }
 
-// VerifNodeFn makes the fake connection for an address. replicaOpt reports whether the
+// VerifRoutingNodeFn makes the fake connection for an address. replicaOpt reports whether the
 // client asked for the connection with its ReplicaOnly option set (the READONLY handshake).
-type VerifNodeFn func(addr string, replicaOpt bool) VerifNode
+type VerifRoutingNodeFn func(addr string, replicaOpt bool) VerifRoutingNode
 
-type verifRouteConn struct {
-	n    VerifNode
+type verifRoutingConn struct {
+	n    VerifRoutingNode
 	addr string
 }
 
-var _ conn = (*verifRouteConn)(nil)
+var _ conn = (*verifRoutingConn)(nil)
 
-func (c *verifRouteConn) Do(ctx context.Context, cmd Completed) RedisResult { return c.n.Do(ctx, cmd) }
-func (c *verifRouteConn) DoCache(ctx context.Context, cmd Cacheable, ttl time.Duration) RedisResult {
+func (c *verifRoutingConn) Do(ctx context.Context, cmd Completed) RedisResult { return c.n.Do(ctx, cmd) }
+func (c *verifRoutingConn) DoCache(ctx context.Context, cmd Cacheable, ttl time.Duration) RedisResult {
 	return c.n.DoCache(ctx, cmd, ttl)
 }
-func (c *verifRouteConn) DoMulti(ctx context.Context, multi ...Completed) *redisresults {
+func (c *verifRoutingConn) DoMulti(ctx context.Context, multi ...Completed) *redisresults {
 	return &redisresults{s: c.n.DoMulti(ctx, multi...)}
 }
-func (c *verifRouteConn) DoMultiCache(ctx context.Context, multi ...CacheableTTL) *redisresults {
+func (c *verifRoutingConn) DoMultiCache(ctx context.Context, multi ...CacheableTTL) *redisresults {
 	return &redisresults{s: c.n.DoMultiCache(ctx, multi...)}
 }
-func (c *verifRouteConn) Receive(ctx context.Context, subscribe Completed, fn func(PubSubMessage)) error {
+func (c *verifRoutingConn) Receive(ctx context.Context, subscribe Completed, fn func(PubSubMessage)) error {
 	return c.n.Receive(ctx, subscribe, fn)
 }
-func (c *verifRouteConn) DoStream(ctx context.Context, cmd Completed) RedisResultStream {
+func (c *verifRoutingConn) DoStream(ctx context.Context, cmd Completed) RedisResultStream {
 	c.n.Stream(ctx, cmd)
 	return RedisResultStream{e: ErrClosing}
 }
-func (c *verifRouteConn) DoMultiStream(ctx context.Context, multi ...Completed) MultiRedisResultStream {
+func (c *verifRoutingConn) DoMultiStream(ctx context.Context, multi ...Completed) MultiRedisResultStream {
 	c.n.Stream(ctx, multi...)
 	return MultiRedisResultStream{e: ErrClosing}
 }
-func (c *verifRouteConn) Info() map[string]RedisMessage { return nil }
-func (c *verifRouteConn) Version() int                  { return c.n.Version() }
-func (c *verifRouteConn) AZ() string                    { return c.n.AZ() }
-func (c *verifRouteConn) Error() error                  { return c.n.Err() }
-func (c *verifRouteConn) Close()                        { c.n.Close() }
-func (c *verifRouteConn) Dial() error                   { return c.n.Dial() }
-func (c *verifRouteConn) Override(conn)                 {}
-func (c *verifRouteConn) Acquire(context.Context) wire  { return nil }
-func (c *verifRouteConn) Store(wire)                    {}
-func (c *verifRouteConn) Addr() string                  { return c.addr }
-func (c *verifRouteConn) SetOnCloseHook(func(error))    {}
-func (c *verifRouteConn) OptInCmd() cmds.Completed      { return cmds.OptInCmd }
+func (c *verifRoutingConn) Info() map[string]RedisMessage { return nil }
+func (c *verifRoutingConn) Version() int                  { return c.n.Version() }
+func (c *verifRoutingConn) AZ() string                    { return c.n.AZ() }
+func (c *verifRoutingConn) Error() error                  { return c.n.Err() }
+func (c *verifRoutingConn) Close()                        { c.n.Close() }
+func (c *verifRoutingConn) Dial() error                   { return c.n.Dial() }
+func (c *verifRoutingConn) Override(conn)                 {}
+func (c *verifRoutingConn) Acquire(context.Context) wire  { return nil }
+func (c *verifRoutingConn) Store(wire)                    {}
+func (c *verifRoutingConn) Addr() string                  { return c.addr }
+func (c *verifRoutingConn) SetOnCloseHook(func(error))    {}
+func (c *verifRoutingConn) OptInCmd() cmds.Completed      { return cmds.OptInCmd }
 
-func verifConnFn(fn VerifNodeFn) connFn {
+func verifRoutingConnFn(fn VerifRoutingNodeFn) connFn {
 	return func(dst string, opt *ClientOption) conn {
-		return &verifRouteConn{n: fn(dst, opt != nil && opt.ReplicaOnly), addr: dst}
+		return &verifRoutingConn{n: fn(dst, opt != nil && opt.ReplicaOnly), addr: dst}
 	}
 }
 
-func verifRetryer(opt *ClientOption) retryHandler {
+func verifRoutingRetryer(opt *ClientOption) retryHandler {
 	if opt.RetryDelay == nil {
 		opt.RetryDelay = defaultRetryDelayFn // as NewClient does
 	}
 	return newRetryer(opt.RetryDelay)
 }
 
-// VerifNewSingle is newSingleClient over fake connections.
-func VerifNewSingle(opt ClientOption, fn VerifNodeFn) (Client, error) {
-	c, err := newSingleClient(&opt, nil, verifConnFn(fn), verifRetryer(&opt))
+// VerifRoutingNewSingle is newSingleClient over fake connections.
+func VerifRoutingNewSingle(opt ClientOption, fn VerifRoutingNodeFn) (Client, error) {
+	c, err := newSingleClient(&opt, nil, verifRoutingConnFn(fn), verifRoutingRetryer(&opt))
 	if c == nil {
 		return nil, err
 	}
 	return c, err
 }
 
-// VerifNewStandalone is NewClient's standalone branch (incl. its option checks) over fake connections.
-func VerifNewStandalone(opt ClientOption, fn VerifNodeFn) (Client, error) {
+// VerifRoutingNewStandalone is NewClient's standalone branch (incl. its option checks) over fake connections.
+func VerifRoutingNewStandalone(opt ClientOption, fn VerifRoutingNodeFn) (Client, error) {
 	if opt.Standalone.EnableRedirect && len(opt.Standalone.ReplicaAddress) > 0 {
 		return nil, ErrNoAddr
 	}
 	if !opt.Standalone.EnableRedirect && len(opt.Standalone.ReplicaAddress) > 0 && opt.SendToReplicas == nil {
 		return nil, ErrNoSendToReplicas
 	}
-	c, err := newStandaloneClient(&opt, verifConnFn(fn), verifRetryer(&opt))
+	c, err := newStandaloneClient(&opt, verifRoutingConnFn(fn), verifRoutingRetryer(&opt))
 	if c == nil {
 		return nil, err
 	}
 	return c, err
 }
 
-// VerifNewSentinel is newSentinelClient over fake connections.
-func VerifNewSentinel(opt ClientOption, fn VerifNodeFn) (Client, error) {
-	c, err := newSentinelClient(&opt, verifConnFn(fn), verifRetryer(&opt))
+// VerifRoutingNewSentinel is newSentinelClient over fake connections.
+func VerifRoutingNewSentinel(opt ClientOption, fn VerifRoutingNodeFn) (Client, error) {
+	c, err := newSentinelClient(&opt, verifRoutingConnFn(fn), verifRoutingRetryer(&opt))
 	if c == nil {
 		return nil, err
 	}
 	return c, err
 }
 
-// VerifNewCluster is newClusterClient over fake connections.
-func VerifNewCluster(opt ClientOption, fn VerifNodeFn) (Client, error) {
-	c, err := newClusterClient(&opt, verifConnFn(fn), verifRetryer(&opt))
+// VerifRoutingNewCluster is newClusterClient over fake connections.
+func VerifRoutingNewCluster(opt ClientOption, fn VerifRoutingNodeFn) (Client, error) {
+	c, err := newClusterClient(&opt, verifRoutingConnFn(fn), verifRoutingRetryer(&opt))
 	if c == nil {
 		return nil, err
 	}
 	return c, err
 }
 
-// VerifSentinelTargets reports the stored master / replica addresses ("" when unset) and
+// VerifRoutingSentinelTargets reports the stored master / replica addresses ("" when unset) and
 // whether a connection is stored for each.
-func VerifSentinelTargets(c Client) (mAddr, rAddr string, mSet, rSet bool) {
+func VerifRoutingSentinelTargets(c Client) (mAddr, rAddr string, mSet, rSet bool) {
 	s := c.(*sentinelClient)
 	if v := s.mAddr.Load(); v != nil {
 		mAddr = v.(string)
@@ -142,21 +142,21 @@ func VerifSentinelTargets(c Client) (mAddr, rAddr string, mSet, rSet bool) {
 	}
 	if v := s.mConn.Load(); v != nil {
 		mSet = true
-		if vc, ok := v.(*verifRouteConn); ok && vc.addr != mAddr {
+		if vc, ok := v.(*verifRoutingConn); ok && vc.addr != mAddr {
 			mAddr = mAddr + "!=" + vc.addr
 		}
 	}
 	if v := s.rConn.Load(); v != nil {
 		rSet = true
-		if vc, ok := v.(*verifRouteConn); ok && vc.addr != rAddr {
+		if vc, ok := v.(*verifRoutingConn); ok && vc.addr != rAddr {
 			rAddr = rAddr + "!=" + vc.addr
 		}
 	}
 	return
 }
 
-// VerifSentinelList is the client's current sentinel list, front to back.
-func VerifSentinelList(c Client) (out []string) {
+// VerifRoutingSentinelList is the client's current sentinel list, front to back.
+func VerifRoutingSentinelList(c Client) (out []string) {
 	s := c.(*sentinelClient)
 	s.mu.Lock()
 	for e := s.sentinels.Front(); e != nil; e = e.Next() {
@@ -166,25 +166,25 @@ func VerifSentinelList(c Client) (out []string) {
 	return
 }
 
-// VerifSentinelRefresh runs one refresh() of the sentinel client.
-func VerifSentinelRefresh(c Client) error { return c.(*sentinelClient).refresh() }
+// VerifRoutingSentinelRefresh runs one refresh() of the sentinel client.
+func VerifRoutingSentinelRefresh(c Client) error { return c.(*sentinelClient).refresh() }
 
 // Retry policy wrappers.
-func VerifDefaultRetryDelay(attempts int) time.Duration {
+func VerifRoutingDefaultRetryDelay(attempts int) time.Duration {
 	return defaultRetryDelayFn(attempts, Completed{}, nil)
 }
 
-func VerifWaitOrSkipRetry(fn RetryDelayFn, ctx context.Context, attempts int, cmd Completed, err error) bool {
+func VerifRoutingWaitOrSkipRetry(fn RetryDelayFn, ctx context.Context, attempts int, cmd Completed, err error) bool {
 	return newRetryer(fn).WaitOrSkipRetry(ctx, attempts, cmd, err)
 }
 
-func VerifWaitForRetry(ctx context.Context, d time.Duration) {
+func VerifRoutingWaitForRetry(ctx context.Context, d time.Duration) {
 	newRetryer(nil).WaitForRetry(ctx, d)
 }
 
-func VerifErrConnExpired() error { return errConnExpired }
+func VerifRoutingErrConnExpired() error { return errConnExpired }
 
 var (
-	VerifErrNotMaster = errNotMaster
-	VerifErrNotSlave  = errNotSlave
+	VerifRoutingErrNotMaster = errNotMaster
+	VerifRoutingErrNotSlave  = errNotSlave
 )
